@@ -157,7 +157,7 @@ int main(int argc, char **argv)
     const char *only = mc_arg("class", NULL);
     for (CLS = 0; CLS < 3; CLS++) {
         if (only && strcmp(only, CN[CLS])) continue;
-        mc_sys sys = { CN[CLS], NOPS, op_name, fresh, enabled, apply, probe, canon, teardown };
+        mc_sys sys = { CN[CLS], NOPS, op_name, fresh, enabled, apply, probe, canon, teardown, (int) mc_arg_int("lookahead", 1) };
         mc_e1_run(&sys, (int) mc_arg_int("depth", 40));
     }
     return mc_finish();
